@@ -22,7 +22,8 @@ RULE = ("Generated scenarios (Hypothesis; exhaustive product for n<=2 files in t
         "buffered class (8) x context kind {per-object contexts, backend-wide context, backend-wide "
         "with a capacity argument, capacity-forced flush via set_buffer_capacity, capacity-forced "
         "flush via an overflowing operation} x n in 1..4 files, each with a role {modified, read-only, "
-        "untouched} and an outside change {before its first buffered access, after it, never}; access "
+        "untouched}, an initial state {existing, absent: the outside change then CREATES it} and an outside "
+        "change {before its first buffered access, after it, never}; access "
         "order, position of the 'after' change and exit order are generated. The outside writer always "
         "changes (size, mtime_ns). Oracle: conflict set = modified AND changed-after; a per-object "
         "exit raises MetadataError exactly for conflicting files; the backend-wide exit (or the "
@@ -89,8 +90,12 @@ def run_case(case):
         res, objs, model, expect_disk = [], [], [], []
         for i, f in enumerate(files):
             r = JsonRes(os.path.join(d, f"f{i}.json"))
-            init = _init_doc(kind, i)
-            r.write(copy.deepcopy(init))
+            if f.get("absent"):
+                # the file does not exist when it enters the buffer; an outside change creates it
+                init = {} if kind == "dict" else []
+            else:
+                init = _init_doc(kind, i)
+                r.write(copy.deepcopy(init))
             res.append(r)
             objs.append(cls(filename=r.path))
             model.append(init)
@@ -113,7 +118,7 @@ def run_case(case):
             c.__enter__()
             ctxs.append(c)
         # ---- outside changes 'before', accesses, outside changes 'after'
-        disk = [copy.deepcopy(m) for m in model]   # what is on disk now (plain)
+        disk = [ABSENT if files[i].get("absent") else copy.deepcopy(m) for i, m in enumerate(model)]
         conflict = set()
         written_expected = set()
         stats_ro = {}
@@ -236,10 +241,15 @@ def run_case(case):
         # ---- after the contexts
         for i in range(n):
             got = res[i].read()
+            if disk[i] is ABSENT and got is ABSENT and files[i]["role"] != "modified":
+                continue   # never created by anybody: fine
             if i in conflict or i in conflict_done:
                 if got != disk[i]:
                     raise Mismatch("outside_content_overwritten", file=i, got=got, expected=disk[i])
             elif files[i]["role"] == "modified":
+                empty = {} if kind == "dict" else []
+                if i in alt and alt[i] == empty and got is ABSENT:
+                    continue   # the forcing op raised before applying its change; the file was never created
                 if got != model[i] and not (i in alt and got == alt[i]):
                     raise Mismatch("clean_file_not_written", file=i, got=got, expected=model[i])
             else:
@@ -257,6 +267,8 @@ def run_case(case):
             for i in range(n):
                 now = res[i].read()
                 got = objs[i]()
+                if now is ABSENT:
+                    now = {} if kind == "dict" else []
                 if got != now:
                     raise Mismatch("object_differs_from_disk", file=i, got=got, expected=now)
         # ---- second session: no stale entry may bite
@@ -264,9 +276,12 @@ def run_case(case):
             with cls.buffer_backend():
                 for i in range(n):
                     before = objs[i]()
-                    if before != res[i].read():
+                    on_disk = res[i].read()
+                    if on_disk is ABSENT:
+                        on_disk = {} if kind == "dict" else []
+                    if before != on_disk:
                         raise Mismatch("second_session_stale_read", file=i, got=before,
-                                       expected=res[i].read())
+                                       expected=on_disk)
                     _mutate(objs[i], kind, 77)
         except (BufferedError, MetadataError) as e:
             raise Mismatch("second_session_spurious_error", error=f"{type(e).__name__}: {e}"[:200])
@@ -302,7 +317,7 @@ def _nt(case):
 
 def _vector(case):
     return (case["class"], case["ctx"], tuple((f["role"], f["change"], f.get("rank", 0), f.get("xrank", 0),
-                                                bool(f.get("late")), bool(f.get("read_first")))
+                                                bool(f.get("late")), bool(f.get("read_first")), bool(f.get("absent")))
                                                for f in case["files"]), case.get("trigger", 0))
 
 
@@ -317,6 +332,7 @@ def _draw_case(draw, cname):
             "xrank": draw(st.integers(0, 3)),
             "late": draw(st.booleans()),
             "read_first": draw(st.booleans()),
+            "absent": draw(st.integers(0, 3)) == 0,
         })
     return {"property": ID, "engine": "c07", "class": cname, "ctx": draw(st.sampled_from(CTX)),
             "files": files, "trigger": draw(st.integers(0, 3)), "cap": draw(st.sampled_from([10**9, 10**6])),
@@ -344,13 +360,13 @@ def run_shard(spec, seed, tier, active):
         try:
             for ctx in CTX:
                 for n in (1, 2):
-                    for combo in itertools.product(itertools.product(ROLES, CHANGES, (False, True)), repeat=n):
+                    for combo in itertools.product(itertools.product(ROLES, CHANGES, (False, True), (False, True)), repeat=n):
                         for order in ([0], [0, 1], [1, 0])[: (1 if n == 1 else 3)]:
                             if n == 1 and order != [0]:
                                 continue
                             files = [{"role": r, "change": c, "late": l, "rank": order.index(i) if i < len(order) else i,
-                                      "xrank": (n - 1 - i), "read_first": False}
-                                     for i, (r, c, l) in enumerate(combo)]
+                                      "xrank": (n - 1 - i), "read_first": False, "absent": ab}
+                                     for i, (r, c, l, ab) in enumerate(combo)]
                             attempt({"property": ID, "engine": "c07", "class": cname, "ctx": ctx,
                                      "files": files, "trigger": 0, "cap": 10**9,
                                      "observe_between": False})
